@@ -46,10 +46,10 @@ Consume ==
             [] o.op = "reset" -> Reset
             [] o.op = "checksum" ->
                  /\ UNCHANGED svars
-                 /\ Expect(o.v = Crc(o.data), where @@ [what |-> "checksum", expected |-> Crc(o.data), observed |-> o.v])
+                 /\ Expect(o.v = CrcFold(0, o.data), where @@ [what |-> "checksum", expected |-> CrcFold(0, o.data), observed |-> o.v])
             [] o.op = "residue" ->   \* observed: checksum of data ++ LE(sum)
                  /\ UNCHANGED svars
-                 /\ Expect(o.v = 0 /\ Crc(o.data \o LE16(Crc(o.data))) = 0, where @@ [what |-> "residue", observed |-> o.v])
+                 /\ Expect(o.v = 0 /\ CrcFold(0, o.data \o LE16(CrcFold(0, o.data))) = 0, where @@ [what |-> "residue", observed |-> o.v])
 
 TNext == t <= Len(Traces) /\ (NextTrace \/ Consume)
 
